@@ -133,6 +133,11 @@ impl<T, S> HashSet<T, S> {
     pub fn verif_dump(&self, mut id: impl FnMut(&T) -> u64) -> crate::verif::Dump {
         self.map.verif_dump(|k, _| id(k))
     }
+
+    /// Verification hook: O(1) summary of the backing tables.
+    pub fn verif_stats(&self) -> crate::verif::Stats {
+        self.map.verif_stats()
+    }
 }
 
 #[cfg(feature = "ahash")]
